@@ -75,19 +75,19 @@ class Adapter(EnvAdapter):
                 _c("worst_j3m2o2d3", "worst", 3, 2, 2, 3, 4, 24, probe_every=2, policies=["serial", "lazy"]),
             ]
         out = [
-            _c("default_j20m10o8d6", "default", 20, 10, 8, 6, 12, 400, probe_every=10, probe_cap=224,
-               policies=["greedy", "lazy", "mostly_masked", "masked", "serial", "random"]),
-            _c("toy_j5m4o4d4", "toy", 5, 4, 4, 4, 24, 50, probe_cap=44, policies=full),
+            _c("default_j20m10o8d6", "default", 20, 10, 8, 6, 8, 400, probe_every=12, probe_cap=160,
+               policies=["greedy", "lazy", "mostly_masked", "masked", "serial", "random", "greedy", "lazy"]),
+            _c("toy_j5m4o4d4", "toy", 5, 4, 4, 4, 24, 50, probe_every=2, probe_cap=44, policies=full),
         ]
-        for (j, m, o, d) in ((2, 2, 2, 2), (4, 3, 3, 3), (3, 2, 4, 2), (2, 4, 3, 5), (6, 2, 2, 3), (1, 1, 3, 2),
-                             (3, 5, 1, 4), (8, 4, 5, 4)):
+        for (j, m, o, d, eps) in ((2, 2, 2, 2, 60), (4, 3, 3, 3, 30), (3, 2, 4, 2, 40), (2, 4, 3, 5, 30), (6, 2, 2, 3, 24),
+                                  (1, 1, 3, 2, 40), (3, 5, 1, 4, 24), (8, 4, 5, 4, 12)):
             big = (j + 1) ** m > 64
-            out.append(_c(f"rnd_j{j}m{m}o{o}d{d}", "random", j, m, o, d, 60 if not big else 30, j * o * d + 4,
+            out.append(_c(f"rnd_j{j}m{m}o{o}d{d}", "random", j, m, o, d, eps, j * o * d + 4,
                           probe_cap=64 if not big else min(m * (j + 1) + 16, 96), probe_every=1 if j * o * d <= 40 else 3,
                           policies=full))
         for (j, m, o, d) in ((2, 2, 2, 2), (3, 2, 2, 3), (2, 3, 3, 2), (4, 3, 3, 3)):
-            out.append(_c(f"worst_j{j}m{m}o{o}d{d}", "worst", j, m, o, d, 18, j * o * d + 4,
-                          probe_cap=64 if (j + 1) ** m <= 64 else 40, probe_every=1 if j * o * d <= 24 else 2,
+            out.append(_c(f"worst_j{j}m{m}o{o}d{d}", "worst", j, m, o, d, 16, j * o * d + 4,
+                          probe_cap=64 if (j + 1) ** m <= 64 else 40, probe_every=1 if j * o * d <= 12 else 2,
                           policies=["serial", "greedy", "lazy", "mostly_masked"]))
         return out
 
